@@ -41,6 +41,8 @@ def event_strings(ev):
         v = ev.get(k)
         if isinstance(v, str):
             out.append(v)
+        elif isinstance(v, dict) and isinstance(v.get("__strsub__"), str):
+            out.append(v["__strsub__"])
     p = ev.get("props")
     if isinstance(p, dict):
         out.extend(x for x in p.values() if isinstance(x, str))
